@@ -364,3 +364,22 @@ Proof.
   cbn [app] in Hsem. injection Hsem as _ Hacc.
   cbn [map length accs] in Hinv. injection Hinv as H1 _. congruence.
 Qed.
+
+(* C06: structural rejections of the block machine *)
+Lemma stray_close_rejected skip s f :
+  sst s = Running -> scur s = [f] -> sst (fst (sstep skip s EvClose)) = ErrRootPop.
+Proof. intros H1 H2. unfold sstep. rewrite H1, H2. reflexivity. Qed.
+
+Lemma access_outside_class_rejected skip s f rest a :
+  sst s = Running -> scur s = f :: rest -> fkind f <> KClass ->
+  sst (fst (sstep skip s (EvAccess a))) = ErrAccessOutsideClass.
+Proof.
+  intros H1 H2 H3. unfold sstep. rewrite H1, H2.
+  destruct (fkind f); cbn; try reflexivity. congruence.
+Qed.
+
+Lemma error_is_final skip s evs : sst s <> Running -> sfinal skip s evs = s /\ sem skip s evs = [].
+Proof.
+  intros H. split; [now apply sfinal_stuck|].
+  induction evs as [|e r IH]; [reflexivity|]. cbn [sem]. rewrite (sstep_stuck skip s e H). exact IH.
+Qed.
